@@ -47,6 +47,21 @@ reg("C12", "exploration", "per-key reference monitor over key-set histories x nu
     "get(), N, key persistence, independence and the normalised view (sum 1, ratios, zero-sum -> zeros, no NaN/inf, no FP exception) checked after every update of random key-set histories over six value types and both base trackers.",
     "Finite inputs; exact comparison in Q mode, tolerance in float modes.", "DESIGN.md 3/C12")
 
+reg("C04", "exploration", "statistical monitor: decoded draws + per-call outcome distribution vs exact enumeration; " + STAT,
+    "Feature orders and background rows are decoded from model inputs and tested cell by cell; for tiny games the complete distribution of the "
+    "per-call contribution vector (observed through the public importance_values with alpha=1, or the batch return value) is tested against "
+    "the law obtained by enumerating all permutations and background tuples, and the mean against the exact Shapley value / expected loss increase.",
+    "Independent draws; false alarm <= 1e-9 per run; bias below the minimal detectable deviation recorded in the evidence, or only for unexercised storage sizes, is not seen.",
+    "DESIGN.md 3/C04")
+reg("C05", "exploration", "event-log reference monitor (exact rationals) + offline trace checker for the interval schedule",
+    "Efficiency and per-feature averages of BatchSage (both modes) and IntervalSage compared exactly against a reference rebuilt from the callback "
+    "log; the interval schedule is checked as a trace property over random force/update/interval/storage-length sequences (zero evaluations and unchanged result on skipped calls, window contents on recomputes).",
+    "Loss proxy is call-convention agnostic (C15 owns that); storage non-empty at recomputes.", "DESIGN.md 3/C05")
+reg("C06", "exploration", "boundary monitor on every impute call with unique-id decoding; scripted-RNG enumeration of row choices for small storages",
+    "Every impute call (direct and via explainers) is judged: inputs equal x outside the subset, imputed values are defaults / values of one (joint) "
+    "or any (product) stored observation, n predictions equal to the pristine model, x/subset/storage unchanged by deep snapshot.",
+    "Re-iterable subsets; unique feature values make sources unambiguous.", "DESIGN.md 3/C06")
+
 def main():
     props = [json.loads(l) for l in open(os.path.join(HERE, "properties.jsonl"))]
     checks, na = [], []
